@@ -42,11 +42,17 @@ func zzQuietConfig() []Config {
 func zzH_Stress() {
 	path := zzPath("path")
 	cfg := zzQuietConfig()
-	name := "doc"
-	if _, ok := zzFx.Docs["doc"]; !ok {
-		name = "doc1"
+	// every document of the fixture takes part (a history's documents may differ in what they trigger)
+	var docs []interface{}
+	for _, name := range []string{"doc", "doc1", "doc2", "doc3"} {
+		if _, ok := zzFx.Docs[name]; ok {
+			docs = append(docs, zzDoc(name))
+		}
 	}
-	doc := zzDoc(name)
+	if len(docs) == 0 {
+		docs = append(docs, nil)
+	}
+	doc := docs[0]
 	f, err := Parse(path, cfg...)
 	if err != nil {
 		// a path that does not parse: hammer Parse itself
@@ -64,7 +70,16 @@ func zzH_Stress() {
 		wg.Wait()
 		return
 	}
-	r0, e0 := f(doc)
+	type outcome struct {
+		r []interface{}
+		e error
+	}
+	var base []outcome
+	for _, d := range docs {
+		r, e := f(d)
+		base = append(base, outcome{r, e})
+	}
+	_ = doc
 	var mu sync.Mutex
 	diffs := 0
 	var wg sync.WaitGroup
@@ -75,7 +90,9 @@ func zzH_Stress() {
 			for i := 0; i < 300; i++ {
 				switch g % 4 {
 				case 0, 1:
-					r, e := f(doc)
+					di := (i + g) % len(docs)
+					r, e := f(docs[di])
+					r0, e0 := base[di].r, base[di].e
 					bad := (e == nil) != (e0 == nil) || len(r) != len(r0)
 					if !bad && e == nil {
 						for k := range r {
